@@ -47,7 +47,7 @@ CONFIGS = [
     ("frate3-wlen340ms", "frate=3 wlen=0.34", "thorough"),
     ("frate8000", "frate=8000", "thorough"),
 ]
-SIGNALS = ["speech", "noise", "ramp"]
+SIGNALS = ["speech", "noise", "clipped", "ramp"]
 UNLIMITED = 1000          # FeSim's "room for everything" output limit
 MC_QUICK = [(3, 2), (5, 2), (3, 3)]
 MC_ALL = [(2, 2), (3, 2), (4, 2), (5, 2), (3, 3), (4, 3), (5, 3), (7, 3), (5, 4), (9, 4)]
@@ -528,7 +528,7 @@ def run(ctx):
             sigseed = sigseeds[k % len(sigseeds)]
             for sig in SIGNALS:
                 for enc in ("i", "f"):
-                    if big and quick and (sig, enc) not in (("speech", "i"), ("noise", "f"), ("ramp", "i"), ("ramp", "f")):
+                    if big and quick and (sig, enc) not in (("speech", "i"), ("noise", "f"), ("clipped", "i"), ("ramp", "i"), ("ramp", "f")):
                         continue
                     eid = "%s-%s%s-%d#%s-%s" % (cfg[0], proto, "-long" if big else "", k, sig, enc)
                     # two out of three schedules run on a USED object (fe_start after another utterance)
